@@ -330,11 +330,13 @@ def discharge(Y, s, layer):
             return False, "%s on %s" % (ak, [sshow(v.terms.operand(o, 8), 5) for o in s.ops])
         return False, ak
     if s.cls == "alloc":
-        size_ops = s.ops[-1:] if "resize" not in k else s.ops[1:2]
-        if "from_elem" in k or "repeat_n" in k:
+        # capacity argument position: associated constructors take it first, methods on a collection second
+        if re.search(r"with_capacity", k):
+            size_ops = s.ops[0:1]
+        elif "from_elem" in k or "repeat_n" in k or re.search(r"(reserve|reserve_exact|resize|resize_with|repeat)#", k + "#"):
             size_ops = s.ops[1:2]
-        if k.endswith(("reserve", "reserve_exact")):
-            size_ops = s.ops[1:2]
+        else:
+            size_ops = s.ops[-1:]
         for o in size_ops:
             t = v.terms.operand(o, 14)
             if const_of(o) is not None:
